@@ -19,7 +19,8 @@ use vcore::{Ctx, Odometer};
 use vref::canon::{Labels, SigParams};
 
 use alpha::{alphabets, nm, sequences, TypeAlpha};
-use tbs::Case;
+use tbs::{Case, Foreign};
+use vref::canon::{Field, Rdata};
 
 fn swap_case(l: &Labels) -> Labels {
     l.iter()
@@ -49,7 +50,48 @@ fn sig_tuples() -> Vec<SigParams> {
         t(13, 0, 0x0000_0010, 0xffff_fff0, 0, "Z"),
         t(8, 0xffff_ffff, 0xffff_ffff, 0, 0xffff, "Sub.Z"),
         t(5, 1, 1, 2, 256, ""),
+        // signer with a dot inside a label, NUL, '[' and octets >= 0x80 (only A-Z may be folded)
+        SigParams { signer: vec![b"S.x".to_vec(), vec![0x00, b'[', 0xc0, 0xdf], b"Z".to_vec()], ..t(14, 60, 2, 1, 1, "") },
     ]
+}
+
+/// Records outside the RRset (`owner`, `class`, `rtype`) to be mixed into the iterator.
+fn foreign_kinds(owner: &Labels, class: u16, rtype: u16, unused: Option<&Rdata>, sigp: &SigParams, more: bool) -> Vec<Foreign> {
+    let mut v = vec![];
+    let mk = |kind: &str, owner: Labels, class: u16, rtype: u16, rdata: Rdata| Foreign { pos: 0, kind: kind.to_string(), owner, class, rtype, rdata, ttl: 300 };
+    if let Some(rd) = unused {
+        // same owner and type, other class
+        v.push(mk("class", owner.clone(), if class == 1 { 3 } else { 1 }, rtype, rd.clone()));
+        if more {
+            v.push(mk("class", owner.clone(), 254, rtype, rd.clone()));
+            v.push(mk("class", owner.clone(), 255, rtype, rd.clone()));
+        }
+        // same class and type, other owner: sibling, child, parent
+        let mut sib = owner.clone();
+        if sib.is_empty() {
+            sib.push(b"q".to_vec());
+        } else {
+            sib[0] = b"q".to_vec();
+        }
+        v.push(mk("owner", sib, class, rtype, rd.clone()));
+        let mut child = vec![b"q".to_vec()];
+        child.extend(owner.iter().cloned());
+        v.push(mk("owner", child, class, rtype, rd.clone()));
+        if !owner.is_empty() {
+            v.push(mk("owner", owner[1..].to_vec(), class, rtype, rd.clone()));
+        }
+    }
+    // same owner and class, other type
+    if rtype == 1 {
+        v.push(mk("type", owner.clone(), class, 16, vec![Field::Bytes(vec![1, b'x'])]));
+    } else {
+        v.push(mk("type", owner.clone(), class, 1, vec![Field::Bytes(vec![192, 0, 2, 99])]));
+    }
+    // the RRSIG that covers the set (what a response carries next to the RRset)
+    let mut head = vref::canon::sig_rdata_prefix(&SigParams { signer: vec![], ..sigp.clone() });
+    head.truncate(18);
+    v.push(mk("rrsig", owner.clone(), class, 46, vec![Field::Bytes(head), Field::Name(sigp.signer.clone()), Field::Bytes(vec![0x5a; 8])]));
+    v
 }
 
 fn ttl_pattern(pat: u64, n: usize) -> Vec<u32> {
@@ -89,6 +131,18 @@ fn main() {
     };
 
     if let Some((_key, case)) = ctx.replay_case() {
+        if case["family"].as_str() == Some("keytag") {
+            ctx.with_local(|l| {
+                crypto::run_keytag_case(
+                    case["flags"].as_u64().unwrap_or(0) as u16,
+                    case["algorithm"].as_u64().unwrap_or(0) as u8,
+                    case["key_len"].as_u64().unwrap_or(0) as usize,
+                    case["pattern"].as_u64().unwrap_or(0) as u8,
+                    l,
+                )
+            });
+            ctx.finish(false);
+        }
         let c = Case::from_json(&case);
         let hr: Result<Vec<RData>, String> = c.rdatas.iter().map(|r| tbs::hrdata(c.p.type_covered, r)).collect();
         let hr = hr.unwrap_or_else(|e| vcore::machinery_exit(&format!("replay: RDATA does not decode: {e}")));
@@ -113,10 +167,17 @@ fn main() {
          2^32-1, validity window wrapping 2^32, upper-case signer, root signer) x every Labels value 0..owner_labels+1. Each \
          RDATA is decoded from its plain wire form by the real decoder, TBS::from_input is executed and compared byte for byte \
          with vref::canon. Labels > owner labels must be an error; a wildcard owner whose Labels value counts the '*' is not \
-         judged (RFC 4034 3.1.3 vs RFC 4035 5.3.2). Crypto: every RRset shape of <= 3 (thorough 4) records x {RSASHA256, RSASHA512, ECDSAP256SHA256, \
+         judged (RFC 4034 3.1.3 vs RFC 4035 5.3.2). Crypto: every RRset shape of <= 2 (thorough 3) records (single records also under a wildcard-expanded owner, a wildcard owner, an owner with odd octets and with foreign records mixed in) x {RSASHA256, RSASHA512, ECDSAP256SHA256, \
          ECDSAP384SHA384, ED25519}: RRSIG::from_rrset -> verify_rrsig (given + reversed order) -> ring verifies the built-in \
          signature over the reference bytes; reference bytes signed by ring -> verify_rrsig must accept iff the TBS bytes equal \
-         the reference. Non-trivial = distinct cases with >= 2 records whose input order is not the canonical duplicate-free \
+         the reference. Extension round: owners and signer with odd octets (dot inside a label, NUL, '[', '@', 0xc0/0xdf, 63-octet label); every type hickory has typed RDATA for \
+         (adds NSEC3, NSEC3PARAM, CDS, CDNSKEY, KEY, TLSA, SMIMEA, SSHFP, CERT, CSYNC, OPENPGPKEY, NULL, HINFO, TYPE65305/ANAME, more SvcParams) with values that are \
+         prefixes of one another / differ only in length or in the last octet; filter family: one (thorough: two) record(s) of another class \
+         (IN/CH, thorough NONE/ANY), another owner (sibling, child, parent), another type, or the covering RRSIG at every position of the iterator: the \
+         signed data must not change; permutation family: the type's whole alphabet plus exact duplicates (7, thorough 8 records) in EVERY order with equal \
+         and descending TTLs; key tag family: DNSKEY RDATA = 5 flag values x 9 algorithms x 25 key lengths (0..4097, odd and even) x 6 fill patterns \
+         (zeros, 0xff, leading zeros, RSA with zero-padded modulus, ...) decoded and constructed, against RFC 4034 Appendix B. \
+         Non-trivial = distinct cases with >= 2 records whose input order is not the canonical duplicate-free \
          order, or with embedded names, and every deviating case.",
     );
     ctx.assume("vref::canon (RFC 4034 6.2/6.3, RFC 4035 5.3.2, RFC 6840 5.1) is the reference for the signed data");
@@ -124,7 +185,6 @@ fn main() {
     ctx.assume("RDATA values enter hickory through its own wire decoder (the validator's path); C02 owns decoder fidelity");
 
     // ------------------------------------------------------------------ prepare alphabets
-    let max_len = if thorough { 5 } else { 3 };
     let mut prepared: Vec<Prepared> = vec![];
     for a in alphabets(thorough) {
         let mut hr = vec![];
@@ -139,12 +199,22 @@ fn main() {
         if hr.len() != a.values.len() {
             continue;
         }
+        let max_len = if !thorough { 3 } else if a.values.len() <= 4 { 5 } else { 4 };
         let seqs = sequences(a.values.len(), max_len);
         prepared.push(Prepared { alpha: a, hr, seqs });
     }
-    let mut owners: Vec<Labels> = vec![nm("z"), nm("a.z"), nm("A.Z"), nm("*.z"), nm("x.y.z")];
+    let mut owners: Vec<Labels> = vec![
+        nm("z"),
+        nm("a.z"),
+        nm("A.Z"),
+        nm("*.z"),
+        nm("x.y.z"),
+        // odd octets: a dot inside a label, NUL, '[' (0x5b), '@', 0xc0/0xdf (must not be folded), upper case
+        vec![b"A.b".to_vec(), vec![0x00, b'[', b'@', 0xc0, 0xdf, b'Q'], b"Z".to_vec()],
+    ];
     if thorough {
         owners.push(vec![]);
+        owners.push(vec![vec![b'M'; 63], b"*".to_vec(), b"z".to_vec()]);
     }
     let tuples = sig_tuples();
     let classes = [1u16, 3];
@@ -171,6 +241,7 @@ fn main() {
                 rdatas: seq.iter().map(|&k| pr.alpha.values[k].clone()).collect(),
                 ttls: ttl_pattern(d[3], seq.len()),
                 p,
+                foreign: vec![],
             };
             for labels in 0..=(owner.len() as u8 + 1) {
                 c.p.labels = labels;
@@ -186,11 +257,132 @@ fn main() {
     ctx.set("types", json!(prepared.iter().map(|p| p.alpha.name).collect::<Vec<_>>()));
     ctx.set("wall_after_tbs_s", json!(ctx.elapsed_s()));
 
+    // ------------------------------------------------------------------ filter family
+    // records of another class / owner / type and the covering RRSIG at every position of the
+    // iterator (thorough: every ordered pair of them): the signed data must not change
+    {
+        let flen = if thorough { 3 } else { 2 };
+        let fowners: Vec<Labels> = vec![nm("a.z"), nm("*.z"), nm("z"), vec![]];
+        let mut fcases = 0u64;
+        for pr in &prepared {
+            let seqs: Vec<&Vec<usize>> = pr.seqs.iter().filter(|s| s.len() <= flen).collect();
+            let od = Odometer::new(&[seqs.len() as u64, fowners.len() as u64, classes.len() as u64]);
+            fcases += od.space();
+            ctx.par_run(od.space(), 16, |i, l| {
+                let d = od.get(i);
+                let seq = seqs[d[0] as usize];
+                let owner = &fowners[d[1] as usize];
+                let class = classes[d[2] as usize];
+                let hr: Vec<RData> = seq.iter().map(|&k| pr.hr[k].clone()).collect();
+                let mut p = tuples[0].clone();
+                p.type_covered = pr.alpha.code;
+                p.labels = if owner.first().map(|x| x.as_slice() == b"*").unwrap_or(false) { owner.len() as u8 - 1 } else { owner.len() as u8 };
+                let unused = (0..pr.alpha.values.len()).find(|k| {
+                    let cand = vref::canon::rdata_canonical(pr.alpha.code, &pr.alpha.values[*k]);
+                    !seq.iter().any(|&j| vref::canon::rdata_canonical(pr.alpha.code, &pr.alpha.values[j]) == cand)
+                });
+                let kinds = foreign_kinds(owner, class, pr.alpha.code, unused.map(|k| &pr.alpha.values[k]), &p, thorough);
+                let mut c = Case {
+                    tname: pr.alpha.name.to_string(),
+                    owner: owner.clone(),
+                    rec_owner: swap_case(owner),
+                    class,
+                    rdatas: seq.iter().map(|&k| pr.alpha.values[k].clone()).collect(),
+                    ttls: vec![300; seq.len()],
+                    p,
+                    foreign: vec![],
+                };
+                for f in &kinds {
+                    for pos in 0..=seq.len() {
+                        let mut f1 = f.clone();
+                        f1.pos = pos;
+                        c.foreign = vec![f1.clone()];
+                        tbs::run_tbs_case(&c, &hr, l);
+                        if thorough && (pos == 0 || pos == seq.len()) {
+                            for g in &kinds {
+                                for pos2 in [0, seq.len() + 1] {
+                                    let mut g1 = g.clone();
+                                    g1.pos = pos2;
+                                    c.foreign = vec![f1.clone(), g1];
+                                    tbs::run_tbs_case(&c, &hr, l);
+                                }
+                            }
+                        }
+                    }
+                }
+                if i % 5003 == 7 {
+                    l.sample(c.to_json());
+                }
+            });
+        }
+        ctx.set("filter_base_cases", json!(fcases));
+    }
+    ctx.set("wall_after_filter_s", json!(ctx.elapsed_s()));
+
+    // ------------------------------------------------------------------ permutation family
+    // larger RRsets: the whole alphabet of the type plus exact duplicates, up to 7 (thorough 8)
+    // records, in EVERY order, with equal and with descending record TTLs
+    {
+        let cap = if thorough { 8 } else { 7 };
+        let mut pcases = 0u64;
+        for pr in &prepared {
+            let k = pr.alpha.values.len();
+            let mut multiset: Vec<usize> = (0..k.min(cap - 1)).collect();
+            let mut d = 0;
+            while multiset.len() < cap.min(k + if thorough { 3 } else { 1 }) {
+                multiset.push(d % k);
+                d += 1;
+            }
+            let perms = vcore::enumerate::permutations(multiset.len());
+            pcases += 2 * perms.len() as u64;
+            ctx.par_run(perms.len() as u64, 64, |i, l| {
+                let seq: Vec<usize> = perms[i as usize].iter().map(|&j| multiset[j]).collect();
+                let hr: Vec<RData> = seq.iter().map(|&k| pr.hr[k].clone()).collect();
+                let mut p = tuples[0].clone();
+                p.type_covered = pr.alpha.code;
+                p.labels = 2;
+                let owner = nm("a.z");
+                let mut c = Case {
+                    tname: pr.alpha.name.to_string(),
+                    owner: owner.clone(),
+                    rec_owner: owner,
+                    class: 1,
+                    rdatas: seq.iter().map(|&k| pr.alpha.values[k].clone()).collect(),
+                    ttls: ttl_pattern(0, seq.len()),
+                    p,
+                    foreign: vec![],
+                };
+                tbs::run_tbs_case(&c, &hr, l);
+                c.ttls = ttl_pattern(1, seq.len());
+                tbs::run_tbs_case(&c, &hr, l);
+                l.outcome("perm:case-pair");
+                if i % 30011 == 3 {
+                    l.sample(c.to_json());
+                }
+            });
+        }
+        ctx.set("permutation_cases", json!(pcases));
+    }
+    ctx.set("wall_after_perm_s", json!(ctx.elapsed_s()));
+
+    // ------------------------------------------------------------------ key tag family
+    {
+        let flags: [u16; 5] = [0, 256, 257, 0x0180, 0xffff];
+        let algs: [u8; 9] = [5, 7, 8, 10, 13, 14, 15, 16, 253];
+        let lens: Vec<usize> = vec![0, 1, 2, 3, 4, 5, 31, 32, 33, 64, 65, 96, 97, 131, 132, 255, 256, 257, 259, 260, 516, 517, 1023, 4096, 4097];
+        let od = Odometer::new(&[flags.len() as u64, algs.len() as u64, lens.len() as u64, 6]);
+        ctx.set("keytag_cases", json!(od.space()));
+        ctx.par_run(od.space(), 32, |i, l| {
+            let d = od.get(i);
+            crypto::run_keytag_case(flags[d[0] as usize], algs[d[1] as usize], lens[d[2] as usize], d[3] as u8, l);
+        });
+    }
+
     // ------------------------------------------------------------------ crypto family
     // every RRset shape x every key; one parameter tuple; owner a.z. (plus the wildcard-reduced
     // x.y.z. / Labels=1 for the reference-signed direction on the shortest shapes)
     {
-        let crypto_len = if thorough { 4 } else { 3 };
+        let crypto_len = if thorough { 3 } else { 2 };
         for pr in &prepared {
             let seqs: Vec<&Vec<usize>> = pr.seqs.iter().filter(|s| s.len() <= crypto_len).collect();
             let od = Odometer::new(&[seqs.len() as u64, keys.len() as u64]);
@@ -211,6 +403,7 @@ fn main() {
                     rdatas: seq.iter().map(|&k| pr.alpha.values[k].clone()).collect(),
                     ttls: vec![3600; seq.len()],
                     p,
+                    foreign: vec![],
                 };
                 crypto::run_crypto_case(&c, &hr, key, l);
                 if seq.len() == 1 {
@@ -220,6 +413,28 @@ fn main() {
                     w.rec_owner = nm("X.y.Z");
                     w.p.labels = 1;
                     crypto::run_crypto_case(&w, &hr, key, l);
+                    // wildcard owner (Labels must not count the `*`) and an owner with odd octets
+                    let mut w2 = c.clone();
+                    w2.owner = nm("*.z");
+                    w2.rec_owner = nm("*.Z");
+                    w2.p.labels = 1;
+                    crypto::run_crypto_case(&w2, &hr, key, l);
+                    let mut w3 = c.clone();
+                    w3.owner = vec![b"A.b".to_vec(), vec![0x00, b'[', 0xc0, b'Q'], b"z".to_vec()];
+                    w3.rec_owner = w3.owner.clone();
+                    w3.p.labels = 3;
+                    crypto::run_crypto_case(&w3, &hr, key, l);
+                    // the verifier's filter: foreign records before and after the genuine one
+                    let unused = (0..pr.alpha.values.len()).find(|k| {
+                        vref::canon::rdata_canonical(pr.alpha.code, &pr.alpha.values[*k]) != vref::canon::rdata_canonical(pr.alpha.code, &pr.alpha.values[seq[0]])
+                    });
+                    for f in foreign_kinds(&c.owner, 1, pr.alpha.code, unused.map(|k| &pr.alpha.values[k]), &c.p, false) {
+                        for pos in [0usize, 1] {
+                            let mut x = c.clone();
+                            x.foreign = vec![Foreign { pos, ..f.clone() }];
+                            crypto::run_crypto_case(&x, &hr, key, l);
+                        }
+                    }
                 }
                 if i % 1009 == 5 {
                     let mut j = c.to_json();
@@ -236,6 +451,10 @@ fn main() {
         "tbs:equal".into(),
         "tbs:equal:wildcard-reduced-owner".into(),
         "tbs:labels-exceed-owner:rejected".into(),
+        "tbs:equal:foreign-records-ignored".into(),
+        "perm:case-pair".into(),
+        "keytag:equal".into(),
+        "keytag:equal:odd-length-rdata".into(),
     ];
     for k in &keys {
         need.push(format!("refsigned:verified:{}", k.name));
